@@ -64,6 +64,12 @@ var knownCases = []struct {
 	{15, "c09-folded-abstract-vector-picks-first-vecn-type",
 		"`vec2(2) + 1` is folded into a Compose typed with the FIRST vec2 type of the arena (here vec2<f32>) while its components are i32 literals",
 		"var<private> q: vec2<f32>;\nfn f() -> i32 {\n    let a = vec2(2) + 1;\n    return a.x;\n}\n"},
+	{16, "c09-global-expr-type-handle-dropped-by-compact-types",
+		"a module const built from nested vector constructors leaves Compose{Type: 0xFFFFFFFF} in GlobalExpressions: the inner vector type is otherwise unused and CompactTypes removes it",
+		"const C: vec4<f32> = vec4<f32>(vec2<f32>(1.0, 2.0), vec2<f32>(3.0, 4.0));\nfn f() -> f32 {\n    return C.x;\n}\n"},
+	{17, "c09-const-splat-as-single-component-compose",
+		"vecN(<scalar>) nested in a module-scope const is stored as Compose{vecN, [one scalar]} (also in GlobalExpressions) and deep-copied like that into function bodies, instead of a Splat",
+		"struct S { v: vec4<f32> }\nconst C: vec4<f32> = vec4<f32>(vec2<f32>(0.25), vec2<f32>(0.5));\nfn f() -> S {\n    return S(C);\n}\n"},
 }
 
 // TestDevKnownShapes (C09_DEV=1): every known case fails the strict judge, passes
